@@ -13,15 +13,29 @@ verif_node verif_nodes[VERIF_NNODES];
 verif_sym verif_syms[VERIF_NSYM];
 type_t verif_tpool[VERIF_NSID];
 struct variable_t { symbol_t uid; expression_t init; };
+struct template_t;
+class frame_t
+{
+public:
+    symbol_t syms[3];
+    symbol_t operator[](size_t i) const { __CPROVER_assert(i < 3, "stub: frame index in range"); return syms[i]; }
+};
+struct instance_t { frame_t parameters; verif_symset restricted; template_t* templ; };
+struct template_t : public instance_t {};
 class StatementBuilder
 {
 public:
     void collectDependencies(verif_symset& dependencies, expression_t expr);
+    /* contract of collectDependencies as the propagation step uses it: the set grows by the dependencies of the expression
+       (ghost g_reads of the node; the closure itself is c13_collect_dependencies' obligation) */
+    void collectDependencies__contract(verif_symset& dependencies, expression_t expr) { dependencies.mask |= expr.data->g_reads; }
+    void propagate_restricted(instance_t* old_instance, instance_t& new_instance, expression_t* exprs, size_t expected);
 };
 }
 using namespace UTAP;
 using namespace Constants;
 #include "collect_deps.inc"
+#include "restricted_propagation.inc" /* REAL: the tail of DocumentBuilder::instantiation_end (lowered) */
 
 static variable_t vars[4];
 /* expression node 0 reads R0; symbol i is a variable (has data, not a function) iff isvar bit i; its initialiser (node 1+i) reads succ_i */
@@ -41,4 +55,20 @@ extern "C" void w_c13_collect(unsigned r0, unsigned isvar, unsigned isfun, unsig
     StatementBuilder sb;
     sb.collectDependencies(D, expression_t(0));
     *dep_out = D.mask;
+}
+
+/* instantiation `new = old(args)`: old has np parameters (symbols 0..np-1), its own restricted set r_old, and a template whose
+   restricted set r_templ may differ (old is a partial instance); argument i reads deps_i */
+extern "C" void w_c13_propagate(int np, unsigned r_old, unsigned r_templ, unsigned d0, unsigned d1, unsigned d2, unsigned r_new_in, unsigned* r_new_out)
+{
+    static template_t templ; static instance_t old_i, new_i;
+    unsigned d[3] = {d0, d1, d2};
+    expression_t exprs[3];
+    for (int i = 0; i < 3; i++) { verif_nodes[i].g_reads = d[i]; verif_nodes[i].nsub = 0; exprs[i] = expression_t(i); old_i.parameters.syms[i] = symbol_t(i); }
+    templ.restricted.mask = r_templ; templ.templ = &templ;
+    old_i.restricted.mask = r_old; old_i.templ = &templ;
+    new_i.restricted.mask = r_new_in; new_i.templ = &templ;
+    StatementBuilder sb;
+    sb.propagate_restricted(&old_i, new_i, exprs, (size_t)np);
+    *r_new_out = new_i.restricted.mask;
 }
